@@ -3,7 +3,8 @@
    ([is_field], see C09) and for EVERY splitting and strength pattern. *)
 From Coq Require Import ZArith List Bool Field QArith.
 Import ListNotations.
-Require Import PV.Base.Ops PV.Model.Interp PV.Proofs.RelaxProofs PV.Proofs.InterpProofs PV.Proofs.ClassicalProofs.
+Require Import PV.Base.Ops PV.Model.Interp PV.Proofs.RelaxProofs PV.Proofs.InterpProofs PV.Proofs.ClassicalProofs PV.Proofs.OnePointProofs.
+Require Import PV.Base.OrdLaws.
 
 (* a coarse point gets an identity row (one entry, value 1, at its coarse index) *)
 Theorem C11_direct_C_identity : forall F (o : Ops F) Ap Aj Ax Sp Sj Sx spl i,
@@ -88,3 +89,30 @@ Example C11_classical_example :
   /\ cl_rowsum opsQ ex_Ap ex_Ax 1 = 0%Q /\ cl_strong_offdiag opsQ ex_Ap ex_Aj ex_Ax 1 = (-3)%Q
   /\ cl_inner opsQ ex_Ap ex_Aj ex_Ax ex_Ap ex_Aj [1;0;0;1]%Z 1 6 = (-2)%Q.
 Proof. vm_compute. repeat split; reflexivity. Qed.
+
+(* ---- one_point_interpolation (air.h) ---- *)
+Theorem C11_one_point_C_identity : forall F (o : Ops F) Sp Sj Sx spl i,
+  isC spl i = true -> one_point_row o Sp Sj Sx spl i = [(cmap spl i, one o)].
+Proof. intros F o Sp Sj Sx spl i. exact (one_point_C_identity o Sp Sj Sx spl i). Qed.
+Print Assumptions C11_one_point_C_identity.
+(* any ordered field in which -1 < |a| for all a, nonnegative column indices: an F row is empty exactly when the row
+   has no strongly connected C point, and otherwise is a single entry on a strongly connected C point of maximal
+   |strength| with value minus that strength entry ("select one strongly connected coarse point or none") *)
+Theorem C11_one_point_F_row : forall F (o : Ops F), OrdLaws o ->
+  (forall a, ltb o (opp o (one o)) (abs o a) = true) ->
+  forall Sp Sj Sx spl, (forall i t, In t (srange Sp i) -> (0 <= gz Sj t)%Z) ->
+  forall i, isC spl i = false ->
+  (one_point_row o Sp Sj Sx spl i = [] /\ forall t, In t (srange Sp i) -> isC spl (gz Sj t) = false) \/
+  (exists t, In t (srange Sp i) /\ isC spl (gz Sj t) = true /\
+     one_point_row o Sp Sj Sx spl i = [(cmap spl (gz Sj t), opp o (gf o Sx t))] /\
+     forall t', In t' (srange Sp i) -> isC spl (gz Sj t') = true -> leb o (abs o (gf o Sx t')) (abs o (gf o Sx t)) = true).
+Proof. intros F o L H1 Sp Sj Sx spl Hc i. exact (one_point_F_row o L Sp Sj Sx spl H1 Hc i). Qed.
+Print Assumptions C11_one_point_F_row.
+(* non-vacuity: the rationals satisfy both hypotheses; on the 1D Laplacian with splitting C F C the F row picks the
+   first of its two equally strong C neighbours with weight 1 *)
+Example C11_one_point_hypotheses_Q : OrdLaws opsQ /\ (forall a : Q, ltb opsQ (opp opsQ (one opsQ)) (abs opsQ a) = true).
+Proof. split; [exact OrdLaws_Q|exact neg_one_lt_abs_Q]. Qed.
+Example C11_one_point_example :
+  one_point_rows opsQ 3 [0;2;5;7]%Z [0;1;0;1;2;1;2]%Z [2#1;-1#1;-1#1;2#1;-1#1;-1#1;2#1] [1;0;1]%Z
+  = [[(0%Z, 1#1)]; [(0%Z, 1#1)]; [(1%Z, 1#1)]].
+Proof. vm_compute. reflexivity. Qed.
